@@ -14,6 +14,7 @@
 -/
 import GoMC.Lemmas.NBTDecode
 import GoMC.Lemmas.NBTFragment
+import GoMC.Lemmas.NBTHistory
 import GoMC.Gen.NBT
 namespace GoMC.Props.C01
 open GoMC GoMC.Rd GoMC.Model GoMC.Model.NBT GoMC.Model.Go GoMC.Lemmas.NBTDecode GoMC.Lemmas.NBTTyped
@@ -147,6 +148,29 @@ theorem C01_decode_typed_partial (cx : SnbtCarrier) {τ : GoType} {k : Cls} (hτ
     ∃ s', decodeTyped cx (isNet fmt) disallow τ s = (Res.ok (k.val t, docName fmt name), s') ∧ s'.flat = rest ∧
       s'.failing = s.failing :=
   (plain_roundtrip cx hτ disallow fmt name t hname ht).2 s rest hs
+
+/-- **Histories.** `Marshal` called any number of times, every result kept and read after the last call
+(`Model/NBTEncode.marshalHist`): the result of the call with a canonical value `v` of a type of the fragment is a
+well-formed document of the format — the one a single call gives — whatever was marshalled before and after it. -/
+theorem C01_marshal_history_conforms_partial (cx : SnbtCarrier) {τ : GoType} {k : Cls} (hτ : Plain τ k) (fmt : Format)
+    (name : Bytes) (v : GoVal) (hname : name.length < 32768) (hv : k.canon v) (pre post : List EncCall) :
+    ∃ t : NBT, t.WF ∧
+      (marshalHist cx (pre ++ ⟨isNet fmt, name, some v⟩ :: post))[pre.length]? = some (Res.ok (encDoc fmt name t)) := by
+  obtain ⟨t, hwf, henc⟩ := C01_encode_conforms_value_partial cx hτ fmt name v hname hv
+  exact ⟨t, hwf, by rw [GoMC.Lemmas.NBTHistory.marshalHist_getElem, henc]⟩
+
+/-- ONE `Encoder` used for a whole history of calls on one buffer (`encoderHist`; calls that fail leave behind
+whatever part of their output they had written, `part`): the stretch of the buffer that the call with `v` filled is
+the document of `v` alone — nothing of the calls before it (a larger array, a failed call) shows in it, and the
+calls after it do not touch it. -/
+theorem C01_encoder_history_conforms_partial (cx : SnbtCarrier) {τ : GoType} {k : Cls} (hτ : Plain τ k) (fmt : Format)
+    (name : Bytes) (v : GoVal) (hname : name.length < 32768) (hv : k.canon v) (part : EncCall → Bytes) (w : Bytes)
+    (pre post : List EncCall) :
+    ∃ t : NBT, t.WF ∧
+      ((encoderHist cx part w (pre ++ ⟨isNet fmt, name, some v⟩ :: post)).drop
+        (GoMC.Lemmas.NBTHistory.offset cx part w pre)).take (encDoc fmt name t).length = encDoc fmt name t := by
+  obtain ⟨t, hwf, henc⟩ := C01_encode_conforms_value_partial cx hτ fmt name v hname hv
+  exact ⟨t, hwf, GoMC.Lemmas.NBTHistory.encoderHist_slice cx part w pre post ⟨isNet fmt, name, some v⟩ _ henc⟩
 
 /- OPEN: C01_encode_conforms / C01_decode_typed outside the fragment (struct types with fields promoted through
    embedded pointers, interfaces nested inside a value held in an interface):
